@@ -160,7 +160,7 @@ async fn crowded(patterns: &[String], keys: &[String]) -> Result<Vec<(String, BT
 pub fn run(ctx: &Ctx) -> Evidence {
     let mut ev = ctx.evidence("C04", "exploration");
     let f03 = ctx.findings.open("F03", "C04");
-    let (pd, kd) = ctx.tier.pick((5usize, 5usize), (5usize, 6usize));
+    let (pd, kd) = ctx.tier.pick((5usize, 5usize), (6usize, 6usize));
     let patterns = all_paths(&["a", "b", "", "?", "#"], pd);
     let keys: Vec<String> = all_paths(&["a", "b", ""], kd).into_iter().filter(|k| !k.is_empty()).collect();
     ev.rule = format!(
